@@ -69,6 +69,11 @@ func HasRootDomain(url string, root string) bool {
 		return false
 	}
 
+	// Only web URLs have a host in this sense ("javascript://host/..." is a script)
+	if scheme := strings.ToLower(parsedURL.Scheme); scheme != "http" && scheme != "https" {
+		return false
+	}
+
 	return parsedURL.Host == root || strings.HasSuffix(parsedURL.Host, "."+root)
 }
 
